@@ -1,5 +1,6 @@
 import NmlVerif.Model.Factory
 import NmlVerif.Proofs.Add
+import NmlVerif.Proofs.AddIR
 /-! Helper lemmas for C09 (`Model/Factory.lean`). Core Lean only. -/
 namespace NmlVerif.Factory
 open NmlVerif NmlVerif.Add
@@ -60,12 +61,13 @@ theorem gate_cond {g : Gate} {valid : Obj → Bool} {p : Obj} (hc : ¬ (g.on && 
   | true => rfl
   | false => simp [hg, hv] at hc
 
-/-- when `add` returns it returns the child, and with the gate on the parent as it now is validates -/
-theorem c10_returns_child (T : Table) (valid strOk : Obj → Bool) (g : Gate) (parent child : Obj)
+/-- when `add` returns it returns the child, and with the gate on the parent as it now is validates — in every
+    shape of `__add` -/
+theorem c10_returns_child (sh : PlaceShape) (T : Table) (valid strOk : Obj → Bool) (g : Gate) (parent child : Obj)
     (hint : Option Nat) (force : Bool) (o : Obj)
-    (h : (Add.add T valid strOk g parent child hint force).result = .ok o) :
-    o = child ∧ (g.on = true → valid (Add.add T valid strOk g parent child hint force).parent = true) := by
-  unfold Add.add addWith addCore at h ⊢
+    (h : (addInst sh T valid strOk g parent child hint force).result = .ok o) :
+    o = child ∧ (g.on = true → valid (addInst sh T valid strOk g parent child hint force).parent = true) := by
+  unfold addInst addCoreX at h ⊢
   generalize select true (targets (T.getMembers parent.cls) child.cls) hint = sel at h ⊢
   match sel with
   | .error e => simp at h
@@ -78,7 +80,7 @@ theorem c10_returns_child (T : Table) (valid strOk : Obj → Bool) (g : Gate) (p
       exact ⟨h.symm, fun hg => gate_cond hc hg⟩
   | .ok (some m) =>
     simp only at h ⊢
-    generalize place (strOk child) parent child m force = pl at h ⊢
+    generalize placeX sh.dup sh.warn sh.bk (strOk child) parent child m force = pl at h ⊢
     match pl with
     | .error e => simp at h
     | .ok (p', w) =>
@@ -90,11 +92,17 @@ theorem c10_returns_child (T : Table) (valid strOk : Obj → Bool) (g : Gate) (p
         exact ⟨h.symm, fun hg => gate_cond hc hg⟩
 
 /-- with the gate off `validate()` plays no role -/
-theorem add_gate_off (T : Table) (valid valid' strOk : Obj → Bool) (g : Gate) (parent child : Obj)
+theorem add_gate_off (sh : PlaceShape) (T : Table) (valid valid' strOk : Obj → Bool) (g : Gate) (parent child : Obj)
     (hint : Option Nat) (force : Bool) (hoff : (g.enabled && g.validate) = false) :
-    Add.add T valid strOk g parent child hint force = Add.add T valid' strOk g parent child hint force := by
+    addInst sh T valid strOk g parent child hint force = addInst sh T valid' strOk g parent child hint force := by
   have hon : g.on = false := hoff
-  simp only [Add.add, addWith, addCore, hon, Bool.false_and, Bool.false_eq_true, ↓reduceIte]
+  simp only [addInst, addCoreX, hon, Bool.false_and, Bool.false_eq_true, ↓reduceIte]
+
+/-- the shape before the repairs is C10's first model `Add.add` -/
+theorem addInst_old (T : Table) (valid strOk : Obj → Bool) (g : Gate) (parent child : Obj) (hint : Option Nat)
+    (force : Bool) :
+    addInst .old T valid strOk g parent child hint force = Add.add T valid strOk g parent child hint force :=
+  addCoreX_generated [] valid strOk _ g parent child hint force
 
 /-! ### the generated constructors -/
 
